@@ -364,3 +364,35 @@ func init() {
 		},
 	})
 }
+
+func init() {
+	// ---- membership churn around a pose source (frame handler registration) ---------
+	reg(&Family{
+		Name: "pose-churn", NConn: 4, Tags: []string{"C11", "C02"},
+		Setup: []Ev{{K: "join", C: 0, X: -1}, {K: "join", C: 1, X: 0}, {K: "eadd", C: 1, X: 0}},
+		Doc:   "session {c0,c1}, c1 owns an entity and keeps sending pose updates; c0, c2, c3 join, leave and re-join around it; frame ticks",
+		Enabled: func(m *Model) []Ev {
+			var evs []Ev
+			for _, c := range []int{0, 2, 3} {
+				mc := m.Conns[c]
+				if !mc.Open {
+					continue
+				}
+				if mc.Sess == nil {
+					for _, s := range liveSessions(m) {
+						evs = append(evs, Ev{K: "join", C: c, X: s.Tok})
+					}
+				} else {
+					evs = append(evs, Ev{K: "close", C: c})
+				}
+			}
+			if c := m.Conns[1]; c.Open && c.Sess != nil {
+				evs = append(evs, Ev{K: "pose", C: 1, X: 0})
+			}
+			if anyPending(m) {
+				evs = append(evs, Ev{K: "tick"})
+			}
+			return evs
+		},
+	})
+}
